@@ -300,8 +300,16 @@ fn check_grid(m: MStyle, acc: &mut Acc) -> Result<(), String> {
             }
         }
     }
-    same_as("Reset", &anstyle::Reset, "\x1b[0m", acc, key ^ 9)?;
-    same_as("Reset::render()", &anstyle::Reset.render(), "\x1b[0m", acc, key ^ 10)?;
+    // the Reset value: whatever its spelling, pure SGR that restores the default state from any state
+    let reset_plain = format!("{}", anstyle::Reset);
+    only_sgr(reset_plain.as_bytes(), "Reset")?;
+    let mut both = b"\x1b[1;3;4;7;9;31;42;58;5;3m".to_vec();
+    both.extend_from_slice(reset_plain.as_bytes());
+    if reset_plain.is_empty() || !sgr::final_style(&both).is_plain() {
+        return Err(format!("anstyle::Reset renders {:?}, which does not restore the default state", reset_plain));
+    }
+    same_as("Reset", &anstyle::Reset, &reset_plain, acc, key ^ 9)?;
+    same_as("Reset::render()", &anstyle::Reset.render(), &reset_plain, acc, key ^ 10)?;
     Ok(())
 }
 
